@@ -175,7 +175,10 @@ func envSame(ha, hb int) bool {
 		return false
 	}
 	for i := range ea {
-		if !proto.Equal(ea[i], eb[i]) {
+		// compared by encoding (proto.Equal does not understand gogoproto custom types such as math.Int)
+		x, err1 := proto.Marshal(ea[i])
+		y, err2 := proto.Marshal(eb[i])
+		if err1 != nil || err2 != nil || !bytes.Equal(x, y) || proto.MessageName(ea[i]) != proto.MessageName(eb[i]) {
 			return false
 		}
 	}
